@@ -81,7 +81,7 @@ def judge(ex: sched.Execution, desc: dict, p: Partial, stop_at: int | None) -> N
         cause = _stuck_cause(sim)
         sig = {"clause": f"stop-does-not-complete:{ex.outcome}", **base}
         if cause:
-            sig = {"clause": "stop-does-not-complete", "cause": cause, "workload": desc["workload"], "_no_windows": True}
+            sig = {"clause": "stop-does-not-complete", "cause": cause, "workload": desc["workload"], "_no_windows": "schedule-free"}
         p.violation(sig, {"stop_at": stop_at, "records": {i[-2:]: sim.record(i) for i in sim.all_ids()},
                           "queue": [x[-2:] for x in sim.queue()], **base}, {})
         return
